@@ -52,7 +52,7 @@ def run(chk, replay_path):
             i = "%s_%s_%s" % (k, CAT[sc["cat"]], AD[sc["adaptor"]])
             if i not in now or (k == "carr" and sc["n"] == 0) or (sc["cat"] == "crvalue" and sc["handoff"] == "assign"):
                 continue        # a range over a const temporary may have a const member: assignability is not required
-            dcs.append((sc, dict(id=i, n=sc["n"], write=sc["write"], handoff=sc["handoff"])))
+            dcs.append((sc, dict(id=i, n=sc["n"], write=sc["write"], handoff=sc["handoff"], style=sc["style"])))
     if replay_path:
         d = json.load(open(replay_path))
         obs = vc.run_cases(exe, [d["witness"]], chk.out, "replay1")
@@ -65,7 +65,7 @@ def run(chk, replay_path):
         if o.get("outcome") == "skipped":
             continue
         k = d["id"].split("_")[0]
-        what = "%s over a %s %s of length %d%s%s" % (sc["adaptor"], sc["cat"], KINDNAME[k], sc["n"], " (writing)" if sc["write"] else "",
+        what = "%s over a %s %s of length %d%s%s%s" % (sc["adaptor"], sc["cat"], KINDNAME[k], sc["n"], " (writing)" if sc["write"] else "", " (advancing with it++)" if sc["style"] == "post" else "",
                                                   "" if sc["handoff"] == "direct" else " (range object %s before the loop)" % {"copy": "copied", "move": "moved", "assign": "assigned over another range"}[sc["handoff"]])
         if o.get("outcome") != "ok":
             chk.diverge("Deref", o.get("outcome"), d, "%s: %s (%s)" % (what, o.get("outcome"), o.get("why")))
@@ -91,12 +91,12 @@ def run(chk, replay_path):
         n = rng.randint(0, 4) if k in ("arr", "carr", "ilist") else rng.choice([0, 1, 2, 5, 17, 60, 60, 127, 128, 255, 256, 257, 300])
         if k == "carr":
             n = max(1, n)
-        rc.append(dict(id=i, n=n, write=(c == "lv" and rng.random() < 0.5), handoff=rng.choice(["direct", "direct", "copy", "move"] + ([] if c == "crv" else ["assign"]))))
+        rc.append(dict(id=i, n=n, write=(c == "lv" and rng.random() < 0.5), handoff=rng.choice(["direct", "direct", "copy", "move"] + ([] if c == "crv" else ["assign"])), style=rng.choice(["pre", "pre", "post"])))
     robs = vc.run_cases(exe, rc, chk.out, "record", per_case_timeout=10)
     execs = []
     for d, o in zip(rc, robs):
         k, c, a = d["id"].split("_")
-        execs.append([dict(e="Loop", adaptor={"en": "enumerate", "re": "reverse"}[a], cat=CATSPEC[c], n=d["n"], write=d["write"], handoff=d["handoff"],
+        execs.append([dict(e="Loop", adaptor={"en": "enumerate", "re": "reverse"}[a], cat=CATSPEC[c], n=d["n"], write=d["write"], handoff=d["handoff"], style=d["style"],
                            outcome=str(o.get("outcome")), visited=o.get("visited", []), after=o.get("after", []), bad=o.get("bad", 0), leaked=o.get("leaked", 0))])
     rej, st = vc.validate_trace("ranges/RangesTrace", "ranges/RangesTrace.cfg", execs, chk.out, "trace", batch=3000)
     chk.states += st["states"]
